@@ -144,7 +144,7 @@ def rand_pat(rng):
 def random_text_case(rng):
     blocks = [{"begin": rand_pat(rng), "end": rand_pat(rng)} for _ in range(rng.randrange(1, 5))]
     lines = []
-    for _ in range(rng.randrange(0, 12)):
+    for _ in range(fsup.nlines(rng, 12)):
         r = rng.random()
         if r < 0.5:
             l = rng.choice(["", " ", "x ", "  #"]) + rng.choice(MARKS) + rng.choice(["", " 1", "END", " BEG x"])
